@@ -214,6 +214,43 @@ func checkC03(c c03Case) error {
 			return err
 		}
 	}
+	// edits confined to the unprotected headers of the in-memory message - including ones that make
+	// the bucket inconsistent with the protected one or impossible to serialise - leave the verdict unchanged
+	{
+		layers := []*cose.Headers{m.headers()}
+		if m.sm != nil {
+			for _, sg := range m.sm.Signatures {
+				layers = append(layers, &sg.Headers)
+			}
+		}
+		before := m.verify(ext, vs...)
+		type saved struct {
+			u   cose.UnprotectedHeader
+			raw []byte
+		}
+		var keep []saved
+		for _, h := range layers {
+			keep = append(keep, saved{h.Unprotected, h.RawUnprotected})
+			nu := cose.UnprotectedHeader{}
+			for k, v := range h.Unprotected {
+				nu[k] = v
+			}
+			nu[int64(4)] = int64(5)                // kid of the wrong type
+			nu[int64(2)] = []any{int64(4)}         // crit does not belong here
+			nu[int64(6)] = []byte{1}               // Partial IV (next to an IV the protected bucket may hold)
+			nu[int64(5)] = []byte{2}               // and an IV
+			nu["verif-unserialisable"] = func() {} // nothing the encoder can write
+			h.Unprotected, h.RawUnprotected = nu, nil
+		}
+		after := m.verify(ext, vs...)
+		for i, h := range layers {
+			h.Unprotected, h.RawUnprotected = keep[i].u, keep[i].raw
+		}
+		if (before == nil) != (after == nil) {
+			return finding("unprotected-edit-changes-verdict", "an in-memory edit confined to the unprotected headers changed the verdict of Verify: before %v, after %v\nwire=%x", before, after, []byte(c.Wire))
+		}
+		stats.Class("reverified-after-unprotected-edit")
+	}
 	stats.Class("class/" + c.Class)
 	if allValid {
 		stats.Class("class-valid/" + c.Class)
